@@ -26,7 +26,8 @@ REQUIRED_CLASSES = ["with_dh", "with_extern", "with_dist", "with_cov_band", "deg
 
 @st.composite
 def case(draw):
-    net = draw(gen_net.determined_network(noise=1))
+    ell = draw(st.integers(0, 4)) == 0
+    net = draw(gen_net.determined_network(noise=1, box=300.0 if ell else None))
     for cl in net["clusters"]:
         if cl["k"] == "obs":
             if draw(st.integers(0, 3)) == 0:
@@ -34,8 +35,8 @@ def case(draw):
             for o in cl["obs"]:
                 r = draw(st.integers(0, 9))
                 if r == 0 and o["t"] in ("direction", "distance", "azimuth") :
-                    o["from_dh"] = draw(st.integers(1000, 1900)) / 1000.0
-                    o["to_dh"] = draw(st.integers(100, 2500)) / 1000.0
+                    o["from_dh"] = draw(st.sampled_from([draw(st.integers(1000, 1900)) / 1000.0, -0.42]))
+                    o["to_dh"] = draw(st.integers(-600, 2500)) / 1000.0
                 if o["t"] == "angle" and r in (1, 2):
                     o["bs_dh"] = draw(st.integers(100, 2500)) / 1000.0
                     o["fs_dh"] = draw(st.integers(100, 2500)) / 1000.0
@@ -70,6 +71,14 @@ def case(draw):
         net["params"]["cov-band"] = draw(st.sampled_from([-1, 0, 1, 3]))
     if draw(st.booleans()):
         net["params"]["algorithm"] = draw(st.sampled_from(ALGS))
+    if ell:
+        # reductions to the ellipsoid: mean latitude (gons, or d-m-s) and / or a named ellipsoid.  The observations are
+        # generated in the plane, so the network is kept small (<= 300 m: curvature effects below the noise)
+        k = draw(st.integers(0, 2))
+        if k != 1:
+            net["params"]["latitude"] = draw(st.sampled_from(["55.5", "33.3333", "-40.25", "99", "49-30-15.5", "0.5"]))
+        if k != 0:
+            net["params"]["ellipsoid"] = draw(st.sampled_from(["wgs84", "bessel", "grs80", "krassovski"]))
     return {"net": net, "alg": draw(st.sampled_from(ALGS + [None])), "mode": mode, "alone": draw(st.integers(0, 2))}
 
 
@@ -156,6 +165,19 @@ def compare_inputs(tag, A, B, stats, strict_coords=False, cmd_alg=None):
             exp_v = cmd_alg          # --algorithm on the command line overrides the parameter
         if exp_v is not None and str(exp_v) != str(pb.get(k)):
             fails.append("%s.param_%s: %s vs %s" % (tag, k, exp_v, pb.get(k)))
+    def lat_gon(v):
+        """latitude attribute: gons, or degrees written d-m-s"""
+        v = str(v)
+        if "-" in v[1:]:
+            sgn = -1.0 if v.startswith("-") else 1.0
+            f = [float(t) for t in v.lstrip("-").split("-")]
+            f += [0.0] * (3 - len(f))
+            return sgn * (f[0] + f[1] / 60.0 + f[2] / 3600.0) / 0.9
+        return float(v)
+    if ("latitude" in pa) != ("latitude" in pb) or ("latitude" in pa and abs(lat_gon(pa["latitude"]) - lat_gon(pb["latitude"])) > 1e-9):
+        fails.append("%s.param_latitude: %s vs %s (gons, or degrees as d-m-s)" % (tag, pa.get("latitude"), pb.get("latitude")))
+    if (pa.get("ellipsoid") or "").lower() != (pb.get("ellipsoid") or "").lower():
+        fails.append("%s.param_ellipsoid: %s vs %s" % (tag, pa.get("ellipsoid"), pb.get("ellipsoid")))
     ang_a = pa.get("angular", pa.get("angles", "400"))
     ang_b = pb.get("angular", pb.get("angles", "400"))
     if str(ang_a) != str(ang_b):
@@ -322,7 +344,13 @@ def oracle(c, stats):
     if not exp1:
         return ["export.missing: no export written for an adjusted network"]
     present = set(a["id"] for k in ("fixed", "adjusted") for a in x0["coordinates"][k])
-    if any(p["id"] not in present for p in net["points"] if p["xy"] or p["z"]):
+    groups = {}
+    for k in ("fixed", "adjusted"):
+        for a in x0["coordinates"][k]:
+            groups.setdefault(a["id"], set()).update((["xy"] if "x" in a else []) + (["z"] if "z" in a else []))
+    partly = any((p["xy"] and "xy" not in groups.get(p["id"], {"xy"})) or (p["z"] and "z" not in groups.get(p["id"], {"z"}))
+                 for p in net["points"])
+    if partly or any(p["id"] not in present for p in net["points"] if p["xy"] or p["z"]):
         # a point was removed from the adjustment (weak configuration): exclusions are the subject of C14 / C20
         stats.label("skipped_point_removed")
         return []
